@@ -603,12 +603,14 @@ pub fn run(ctx: &Ctx) -> (Spec, Report) {
     // from the workspace, from inside the crate (`src`, `./src`, `.`), from inside `src`, through `..`, absolute
     {
         let root = ctx.scratch("path-shapes");
-        for d in ["ws/my-crate/src/sub", "ws/other/src"] {
+        for d in ["ws/my-crate/src/sub", "ws/other/src", "ws/other-more/src"] {
             let _ = std::fs::create_dir_all(root.join(d));
         }
         std::fs::write(root.join("ws/my-crate/src/lib.rs"), "#[typeshare]\npub struct QshapeOne { pub a: u8 }\n").unwrap();
         std::fs::write(root.join("ws/my-crate/src/sub/m.rs"), "#[typeshare]\npub enum QshapeTwo { A, B }\n").unwrap();
         std::fs::write(root.join("ws/other/src/lib.rs"), "#[typeshare]\npub struct QshapeOther { pub a: u8 }\n").unwrap();
+        // a sibling whose name begins with another crate's name: two directories, not one inside the other
+        std::fs::write(root.join("ws/other-more/src/lib.rs"), "#[typeshare]\npub struct QshapeOtherMore { pub a: u8 }\n").unwrap();
         // the same crate once more below a directory that is itself called `src` (`~/src/project/..`): the crate is the
         // directory above the `src` nearest to the file
         let _ = std::fs::create_dir_all(root.join("outer/src/ws2/my-crate/src"));
@@ -624,7 +626,10 @@ pub fn run(ctx: &Ctx) -> (Spec, Report) {
         let shapes: Vec<(&str, String, Vec<&str>)> = vec![
             ("ws", "my-crate".into(), vec!["my-crate"]),
             ("ws", "my-crate/src/".into(), vec!["my-crate"]),
-            ("ws", ".".into(), vec!["my-crate", "other"]),
+            ("ws", ".".into(), vec!["my-crate", "other", "other-more"]),
+            ("ws", "other other-more".into(), vec!["other", "other-more"]),
+            ("ws", "other-more other".into(), vec!["other", "other-more"]),
+            ("ws/my-crate", "../other ../other-more ../other/src".into(), vec!["other", "other-more"]),
             ("ws", "./other/../my-crate".into(), vec!["my-crate"]),
             ("ws", abs.clone(), vec!["my-crate"]),
             ("ws/my-crate", "src".into(), vec!["my-crate"]),
@@ -672,7 +677,7 @@ pub fn run(ctx: &Ctx) -> (Spec, Report) {
     }
     let spec = Spec {
         level: "exploration",
-        rule: format!("{n} generated workspaces of 1-5 crates (names drawn from 10, with dashes and underscores, half of them beginning with the name of a third-party crate typeshare ignores - time-utils, http_types, stdx, ring-buffer, synapse; a third of them with an extra `<first crate>.v2` directory, whose name differs from an existing crate only behind a dot), 1-3 files per crate at depth 1-4 under src, 1-3 types per file (an eighth of the names all capitals), references to earlier types in the same file, the same crate (crate:: / super:: / use self:: / use crate::) and other crates (use single / grouped / nested / glob, qualified and deep qualified paths), a fifth of the types generic (half of those naming their parameter like a cross-crate type another item of the file imports) and referred to with a type argument that is itself a reference in any of those forms (`other::Page<third::models::deep::Item>`), wrapped in nothing / Vec / Option / HashMap value / Box<[..; 2]> / HashMap key (not the last type argument), a sixth of the types serde-renamed, a quarter of the reference-free ones written as newtype structs (shared as aliases), optional prefix and a foreign type mapping; real binary with --output-folder and, as twin, --output-file; TypeScript, Kotlin, Swift, Python (Scala and Go have no multi-file support); oracle: file set and names from the crate rule, every type in exactly its crate's file, union of definitions equals the single-file run, TS/Kotlin imports resolve to the defining file and name only defined types; plus one crate reached through 17 spellings of its path (from the workspace, from inside the crate, from inside src, through `..`, absolute, below an ancestor directory that is itself named src) and a crate nested in another one, both walked in one run through spellings that name neither (`src ../src`), whose output file must be named after the directory above src; distinct = (language, crate count, prefix?) and (language, reference form, renamed?)"),
+        rule: format!("{n} generated workspaces of 1-5 crates (names drawn from 10, with dashes and underscores, half of them beginning with the name of a third-party crate typeshare ignores - time-utils, http_types, stdx, ring-buffer, synapse; a third of them with an extra `<first crate>.v2` directory, whose name differs from an existing crate only behind a dot), 1-3 files per crate at depth 1-4 under src, 1-3 types per file (an eighth of the names all capitals), references to earlier types in the same file, the same crate (crate:: / super:: / use self:: / use crate::) and other crates (use single / grouped / nested / glob, qualified and deep qualified paths), a fifth of the types generic (half of those naming their parameter like a cross-crate type another item of the file imports) and referred to with a type argument that is itself a reference in any of those forms (`other::Page<third::models::deep::Item>`), wrapped in nothing / Vec / Option / HashMap value / Box<[..; 2]> / HashMap key (not the last type argument), a sixth of the types serde-renamed, a quarter of the reference-free ones written as newtype structs (shared as aliases), optional prefix and a foreign type mapping; real binary with --output-folder and, as twin, --output-file; TypeScript, Kotlin, Swift, Python (Scala and Go have no multi-file support); oracle: file set and names from the crate rule, every type in exactly its crate's file, union of definitions equals the single-file run, TS/Kotlin imports resolve to the defining file and name only defined types; plus one crate reached through 17 spellings of its path (from the workspace, from inside the crate, from inside src, through `..`, absolute, below an ancestor directory that is itself named src) and a crate nested in another one, both walked in one run through spellings that name neither (`src ../src`), two sibling crates one of whose names begins with the other's, whose output file must be named after the directory above src; distinct = (language, crate count, prefix?) and (language, reference form, renamed?)"),
         assumptions: vec![
             "`use .. as ..` renames are outside the stated domain and not generated".into(),
             "extra imports (a glob brings in every type of the crate) are allowed as long as the module defines them".into(),
